@@ -22,15 +22,35 @@ func c03GenOpts(router string) rt.GenOpts {
 	return o
 }
 
-// routeDominates: a is strictly more specific than b (same length, literal wherever b is literal, literal somewhere b is variable).
+// routeDominates: a is strictly more specific than b in the sense C03 states: same number of segments, a has a
+// literal segment wherever b has one and a literal segment somewhere b has a variable, "same shape otherwise":
+// every literal part b carries around a variable (suffix, custom verb) is carried by a as well - otherwise the
+// two templates are incomparable and the property does not rank them.
 func routeDominates(a, b rt.Tmpl) bool {
 	if len(a) != len(b) {
 		return false
 	}
 	strict := false
 	for i := range a {
-		if b[i].Kind == rt.Lit && a[i].Kind != rt.Lit {
+		if b[i].Verb != "" && a[i].Verb != b[i].Verb {
 			return false
+		}
+		if a[i].Verb != "" && b[i].Verb == "" {
+			return false // shapes differ in the verb: not "same shape otherwise"
+		}
+		switch b[i].Kind {
+		case rt.Lit:
+			if a[i].Kind != rt.Lit {
+				return false
+			}
+		case rt.VarSuf:
+			if !(a[i].Kind == rt.Lit || (a[i].Kind == rt.VarSuf && a[i].Suf == b[i].Suf)) {
+				return false
+			}
+		default:
+			if a[i].Kind == rt.VarSuf {
+				return false // a literal suffix b does not have: shapes differ
+			}
 		}
 		if a[i].Kind == rt.Lit && b[i].Kind != rt.Lit {
 			strict = true
